@@ -108,9 +108,21 @@ func (c *Cluster) handle(req *Request) *Reply {
 	if f := c.OnRequest; f != nil {
 		if rep := f(req); rep != nil {
 			c.Log.Add(Event{Kind: "fault", Server: req.Server, Conn: req.Conn.ID, CallID: req.CallID, Method: req.Method, Info: "on-request " + rep.describe()})
+			if rep.HoldDefault != nil {
+				d := c.handleDefault(req)
+				if d != nil {
+					d.Hold = rep.HoldDefault
+					d.Delay += rep.Delay
+				}
+				return d
+			}
 			return rep
 		}
 	}
+	return c.handleDefault(req)
+}
+
+func (c *Cluster) handleDefault(req *Request) *Reply {
 	switch req.Method {
 	case "Get", "Mutate":
 		res, cells, processed, exc := c.execAction(req, req.Single)
@@ -139,6 +151,8 @@ func (r *Reply) describe() string {
 		return "exception " + r.Exc.Class
 	case r.Raw != nil:
 		return fmt.Sprintf("raw %d bytes", len(r.Raw))
+	case r.HoldDefault != nil:
+		return "hold-reply"
 	}
 	return "custom"
 }
